@@ -122,7 +122,7 @@ def run(ctx):
     nmax = 4 if ctx.tier == 'quick' else 5
     ctx.rule = ('all ordered DAG shapes (<=2 ordered bases per node) up to %d interfaces, each checked fresh and after every '
                 'single re-basing (quick: shapes <=3 for re-basing), plus seeded random shapes up to 7 nodes with <=3 bases, '
-                'explicit Interface bases and class specifications; histories in which a base is replaced by a re-created interface of the same name and module; distinct = distinct (shape, history)' % nmax)
+                'explicit Interface bases and class specifications; 8-node diamonds whose apex is re-based to every other ordered base tuple over three roots; histories in which a base is replaced by a re-created interface of the same name and module; distinct = distinct (shape, history)' % nmax)
     ctx.bounds = 'nodes<=%d exhaustive, random<=7' % nmax
     for n in range(1, nmax + 1):
         for shape in common.all_shapes(n, 2):
@@ -137,6 +137,20 @@ def run(ctx):
                     for sig, what, known in run_case(shape, (rb,)):
                         ctx.violation(sig + ':' + repr((shape, rb)) if known is None else known, what,
                                       script(shape, (rb,), (), False), known)
+    # diamonds whose APEX is re-based (a base dropped, added or reordered): the bottom is reached along two paths, so an
+    # implementation that brings each dependent up to date once per notification round recomputes it against a stale sibling
+    for init in common.base_choices(3, 2):
+        for nb1 in common.base_choices(3, 2):
+            if nb1 == init or ctx.out_of_time() or ctx.too_many():
+                continue
+            shape = ((), (), (), init, (3,), (3,), (4, 5), (6,))
+            seconds = [()] if ctx.tier == 'quick' else [nb2 for nb2 in common.base_choices(3, 2) if nb2 != nb1]
+            for nb2 in seconds:
+                rbs = ((3, nb1),) if ctx.tier == 'quick' else ((3, nb1), (3, nb2))
+                for wc in (False, True):
+                    ctx.case(('diamond', init, rbs, wc))
+                    for sig, what, known in run_case(shape, rbs, (), wc):
+                        ctx.violation(sig + ':diamond' + repr((init, rbs, wc)) if known is None else known, what, script(shape, rbs, (), wc), known)
     for variant in (0, 1, 2):
         ctx.case(('twin', variant))
         for sig, what, known in twin_case(variant):
